@@ -677,6 +677,7 @@ void ExtrapolatedSmootherTake::buildAscMatrices()
         // Circular Section //
         #pragma omp for nowait
         for (int circle_Asc_index = 0; circle_Asc_index < number_smoother_circles; circle_Asc_index++) {
+            VERIF_ITER(circle_Asc_index);
 
             /* Inner boundary circle */
             if (circle_Asc_index == 0) {
@@ -714,6 +715,7 @@ void ExtrapolatedSmootherTake::buildAscMatrices()
         // Radial Section //
         #pragma omp for nowait
         for (int radial_Asc_index = 0; radial_Asc_index < grid_.ntheta(); radial_Asc_index++) {
+            VERIF_ITER(radial_Asc_index);
             if (radial_Asc_index & 1) {
                 const int radial_tridiagonal_solver_index = radial_Asc_index / 2;
                 auto& solver_matrix                       = radial_tridiagonal_solver_[radial_tridiagonal_solver_index];
@@ -736,11 +738,13 @@ void ExtrapolatedSmootherTake::buildAscMatrices()
     {
         #pragma omp for nowait
         for (int i_r = 0; i_r < grid_.numberSmootherCircles(); i_r++) {
+            VERIF_ITER(i_r);
             buildAscCircleSection(i_r);
         }
 
         #pragma omp for nowait
         for (int i_theta = 0; i_theta < grid_.ntheta(); i_theta++) {
+            VERIF_ITER(i_theta);
             buildAscRadialSection(i_theta);
         }
     }
